@@ -23,7 +23,7 @@ fn spec(t: Tier) -> Spec {
     Spec {
         id: "C12",
         level: "exploration",
-        rule: format!("pattern = sequence of atoms from {:?} (literals incl. regex metacharacters, * ?, backslash escapes, well-formed bracket expressions with negation/range/class/leading ]/escaped ]/inner [, '/' inside a bracket, stray [ ] !); subject = every non-empty string of <= k characters over {:?}. -lname: one directory of symbolic links whose targets are all the subjects; -name: files named by the '/'-free subjects; -path: the same files, pattern prefixed by the literal directory; -ilname/-iname/-ipath with case folding. Slices: {}; plus every pattern of <= 2 atoms given to -iname and to -name in the same expression; plus -name/-iname on starting points spelled N, ./N, N/, N//, N/., N/.., ., .., N/./., N/../N (subject = last path component as given). For each (pattern, subject) the real find's selection must equal fnmatch(): glibc fnmatch(3) (C locale, flags 0 / FNM_CASEFOLD) and the reference matcher written from the statement must agree, otherwise the pair is counted as oracle-undecided and not judged. evaluation = (primary, pattern, subject); non-trivial = pattern containing a special atom (not only literals)", ATOMS, SUBJ.iter().map(|c| (*c as char).to_string()).collect::<Vec<_>>(), t.pick("-lname atoms<=3 x k<=3 and 12-atom sub-alphabet<=3 x k<=3; other primaries atoms<=2 x k<=3", "-lname atoms<=4 x k<=3, atoms<=3 x k<=4, sub-alphabet<=5 x k<=3; other five primaries atoms<=3 x k<=3")),
+        rule: format!("pattern = sequence of atoms from {:?} (literals incl. regex metacharacters, * ?, backslash escapes, well-formed bracket expressions with negation/range/class/leading ]/escaped ]/inner [, '/' inside a bracket, stray [ ] !); subject = every non-empty string of <= k characters over {:?}. -lname: one directory of symbolic links whose targets are all the subjects; -name: files named by the '/'-free subjects; -path: the same files, pattern prefixed by the literal directory; -ilname/-iname/-ipath with case folding. Slices: {}; plus every pattern of <= 2 atoms given to -iname and to -name in the same expression; plus -name/-iname on starting points spelled N, ./N, N/, N//, N/., N/.., ., .., N/./., N/../N (subject = last path component as given). Long slice: runs of 1..14 `?` (alone, after/before `*`, between literals), 1..14 brackets, two/three stars separated by brackets, `?` or literals, literal patterns of 15..240 bytes, against subjects of 1..14, 20, 40, 100, 140, 160, 200, 240 bytes, for -name, -iname, -path, -lname, -ilname (oracle glibc fnmatch, plus the reference matcher up to 40 bytes). For each (pattern, subject) the real find's selection must equal fnmatch(): glibc fnmatch(3) (C locale, flags 0 / FNM_CASEFOLD) and the reference matcher written from the statement must agree, otherwise the pair is counted as oracle-undecided and not judged. evaluation = (primary, pattern, subject); non-trivial = pattern containing a special atom (not only literals)", ATOMS, SUBJ.iter().map(|c| (*c as char).to_string()).collect::<Vec<_>>(), t.pick("-lname atoms<=3 x k<=3 and 12-atom sub-alphabet<=3 x k<=3; other primaries atoms<=2 x k<=3", "-lname atoms<=4 x k<=3, atoms<=3 x k<=4, sub-alphabet<=5 x k<=3; other five primaries atoms<=3 x k<=3")),
         bound: json!({"atoms": ATOMS.len(), "sub_atoms": SUB_ATOMS.len(), "subject_alphabet": SUBJ.len()}),
         assumptions: vec![
             "ASCII only (glibc's C locale is bytewise)".into(),
@@ -354,6 +354,119 @@ fn slices(t: Tier) -> Vec<(Mode, Vec<String>, usize)> {
     v
 }
 
+/// Long patterns against long subjects (far beyond the exhaustive slices): runs of 1..14 `?`
+/// (alone, after and before `*`), 1..14 one-member brackets, two and three stars separated by
+/// brackets / `?` / literals, literal patterns as long as the subject; subjects of 1..14, 20, 40, 100,
+/// 140, 160, 200 and 240 bytes over a/b/digits. -name/-iname on files, -path with the directory
+/// prefix, -lname/-ilname on links with these targets; oracle glibc fnmatch (and the reference
+/// matcher for subjects of <= 40 bytes).
+fn long_slice(ctx: &mut Ctx) {
+    use crate::props::labelled::{run_labelled, t};
+    let sbx = ctx.sbx.clone();
+    for d in ["G", "GL"] {
+        let _ = crate::sandbox::force_remove(&sbx.join(d));
+        if let Err(e) = std::fs::create_dir(sbx.join(d)) {
+            ctx.rep.machinery(format!("sandbox: {e}"));
+            return;
+        }
+    }
+    let mut subjects: Vec<String> = vec![];
+    for len in (1..=14usize).chain([20, 40, 100, 140, 160, 200, 240]) {
+        subjects.push("a".repeat(len));
+        subjects.push(format!("{}b", "a".repeat(len - 1)));
+        subjects.push(format!("b{}", "a".repeat(len - 1)));
+        subjects.push((0..len).map(|i| if i % 2 == 0 { 'a' } else { 'b' }).collect());
+        subjects.push(format!("{}7{}", "a".repeat(len / 2), "b".repeat(len - len / 2)));
+        subjects.push((0..len).map(|i| if i % 3 == 0 { 'A' } else { 'a' }).collect());
+        if len >= 3 {
+            // the only way to match `*[a]*[b]*` / `*[a-z]*[0-9]*` lies at the very start: a backtracking
+            // matcher reaches it last
+            subjects.push(format!("ab{}", "a".repeat(len - 2)));
+            subjects.push(format!("a7{}", "a".repeat(len - 2)));
+        }
+    }
+    subjects.sort();
+    subjects.dedup();
+    for (i, sub) in subjects.iter().enumerate() {
+        if std::fs::write(sbx.join("G").join(sub), b"").is_err() || std::os::unix::fs::symlink(sub, sbx.join("GL").join(format!("l{i:04}"))).is_err() {
+            ctx.rep.machinery(format!("sandbox: cannot create {sub:?}"));
+            return;
+        }
+    }
+    let mut pats: Vec<String> = vec![];
+    for k in 1..=14usize {
+        pats.push("?".repeat(k));
+        pats.push(format!("*{}", "?".repeat(k)));
+        pats.push(format!("{}*", "?".repeat(k)));
+        pats.push(format!("a{}b", "?".repeat(k)));
+        pats.push("[a]".repeat(k));
+        pats.push(format!("{}*", "[ab]".repeat(k)));
+    }
+    pats.extend(["*[a]*[b]*", "*[a-z]*[0-9]*", "*[b]*[a]*[b]", "*?*?*b", "*a*a*b", "*a*b*a", "*[!a]*[!b]*", "a*a*a", "*ab*ab*", "*[0-9]*", "*7*b"].map(String::from));
+    for len in [15usize, 20, 40, 100, 140, 200, 240] {
+        pats.push("a".repeat(len));
+        pats.push(format!("{}b", "a".repeat(len - 1)));
+        pats.push(format!("{}*", "a".repeat(len - 1)));
+        pats.push(format!("*{}", "a".repeat(len - 1)));
+    }
+    let cs = |s: &str| CString::new(s).unwrap();
+    let mut job = 0u64;
+    for prim in ["-name", "-iname", "-path", "-lname", "-ilname"] {
+        let fold = prim.starts_with("-i");
+        for batch in pats.chunks(24) {
+            job += 1;
+            if job % ctx.nshards != ctx.shard {
+                continue;
+            }
+            let (root, tests): (&str, Vec<_>) = match prim {
+                "-path" => ("G", batch.iter().map(|p| t(&[prim, &format!("G/{p}")])).collect()),
+                "-lname" | "-ilname" => ("GL", batch.iter().map(|p| t(&[prim, p])).collect()),
+                _ => ("G", batch.iter().map(|p| t(&[prim, p])).collect()),
+            };
+            std::env::set_current_dir(&sbx).unwrap();
+            let sel = match run_labelled(&[], &[root], &["-mindepth", "1"], &tests, std::time::SystemTime::now()) {
+                Ok(s) => s,
+                Err((why, out, argv)) => {
+                    ctx.rep.violation(&format!("C12 {prim} long patterns: output cannot be attributed"), format!("{why}; find {:?} -> {}", argv.iter().take(8).collect::<Vec<_>>(), out.brief()), json!({"prop":"C12","long":true}));
+                    continue;
+                }
+            };
+            if sel.out.code != Ok(0) {
+                ctx.rep.violation(&format!("C12 {prim} long patterns: non-zero status / panic"), sel.out.brief(), json!({"prop":"C12","long":true}));
+                continue;
+            }
+            for (k, p) in batch.iter().enumerate() {
+                for (i, sub) in subjects.iter().enumerate() {
+                    let Some(want) = g::libc_fnmatch(&cs(p), &cs(sub), fold) else { continue };
+                    if sub.len() <= 40 {
+                        match g::parse(p.as_bytes()) {
+                            Ok(parsed) if !(fold && g::has_class(&parsed)) => {
+                                if g::matches(&parsed, sub.as_bytes(), fold) != want {
+                                    ctx.rep.count("oracle_undecided", 1);
+                                    continue;
+                                }
+                            }
+                            _ => {}
+                        }
+                    }
+                    let path = if root == "GL" { format!("GL/l{i:04}") } else { format!("G/{sub}") };
+                    let got = sel.sel[k].contains(&path);
+                    ctx.rep.evaluations += 1;
+                    ctx.rep.nontrivial += 1;
+                    if got != want {
+                        ctx.rep.violation(
+                            &format!("C12 {prim} {} on a long pattern or subject", if want { "does not match but fnmatch does" } else { "matches but fnmatch does not" }),
+                            format!("{prim} {:?} on a subject of {} bytes ({:?}...): find says {got}, fnmatch says {want}", if p.len() > 60 { format!("{}...({} bytes)", &p[..60], p.len()) } else { p.clone() }, sub.len(), &sub[..sub.len().min(30)]),
+                            json!({"prop":"C12","long":true}),
+                        );
+                    }
+                }
+            }
+            ctx.rep.count("long_pattern_batches", 1);
+        }
+    }
+}
+
 fn run(ctx: &mut Ctx) {
     let mut job = 0u64;
     let mut world: Option<World> = None;
@@ -361,6 +474,7 @@ fn run(ctx: &mut Ctx) {
         let _ = std::fs::create_dir(ctx.sbx.join("N"));
         roots_slice(ctx);
     }
+    long_slice(ctx);
     // mixed slice first (patterns of <= 2 atoms, subjects <= 2|3)
     {
         let k = ctx.tier.pick(2, 3);
